@@ -844,7 +844,140 @@ std::string opStall(const std::vector<std::string>& w)
     return out;
 }
 
+// ---- C15: the real client against a scripted raw server ----
+struct Behaviour { char kind = 'I'; int ms = 0; int timeoutMs = 0; };   // I immediate, D delayed, B dribbled, K chunked, X close after answering, N never
+
+struct ScriptedServer {
+    int lfd = -1; uint16_t port = 0; std::thread acceptor; std::vector<std::thread> workers; std::mutex m;
+    std::atomic<bool> stop { false }; int openNow = 0, peak = 0, accepted = 0; std::vector<Behaviour> beh; std::vector<int> fds;
+    bool start(const std::vector<Behaviour>& b)
+    {
+        beh = b;
+        lfd = ::socket(AF_INET, SOCK_STREAM, 0); if (lfd < 0) return false;
+        int one = 1; ::setsockopt(lfd, SOL_SOCKET, SO_REUSEADDR, &one, sizeof one);
+        sockaddr_in a {}; a.sin_family = AF_INET; a.sin_port = 0; a.sin_addr.s_addr = htonl(INADDR_LOOPBACK);
+        if (::bind(lfd, reinterpret_cast<sockaddr*>(&a), sizeof a) != 0 || ::listen(lfd, 64) != 0) return false;
+        socklen_t len = sizeof a; ::getsockname(lfd, reinterpret_cast<sockaddr*>(&a), &len); port = ntohs(a.sin_port);
+        acceptor = std::thread([this] {
+            while (!stop) {
+                pollfd p { lfd, POLLIN, 0 };
+                if (::poll(&p, 1, 50) <= 0) continue;
+                int fd = ::accept(lfd, nullptr, nullptr); if (fd < 0) continue;
+                int one = 1; ::setsockopt(fd, IPPROTO_TCP, TCP_NODELAY, &one, sizeof one);
+                std::lock_guard<std::mutex> g(m);
+                // connections open on the client side right now: those accepted and not yet closed by the client
+                // (a worker that is sleeping has not noticed the FIN yet: look for it here)
+                int live = 0;
+                for (int other : fds) { char c; ssize_t r = ::recv(other, &c, 1, MSG_PEEK | MSG_DONTWAIT); if (!(r == 0 || (r < 0 && errno != EAGAIN && errno != EWOULDBLOCK))) ++live; }
+                ++accepted; fds.push_back(fd); peak = std::max(peak, live + 1);
+                workers.emplace_back([this, fd] { serve(fd); });
+            }
+        });
+        return true;
+    }
+    void serve(int fd)
+    {
+        std::string buf; char tmp[8192];
+        for (;;) {
+            size_t he;
+            while ((he = buf.find("\r\n\r\n")) == std::string::npos) {
+                pollfd p { fd, POLLIN, 0 };
+                int r = ::poll(&p, 1, 50);
+                if (stop) goto out;
+                if (r <= 0) continue;
+                ssize_t n = ::recv(fd, tmp, sizeof tmp, 0); if (n <= 0) goto out;
+                buf.append(tmp, static_cast<size_t>(n));
+            }
+            {
+                std::string head = buf.substr(0, he); buf.erase(0, he + 4);
+                size_t rp = head.find("/r"); int idx = rp == std::string::npos ? -1 : atoi(head.c_str() + rp + 2);
+                Behaviour b = (idx >= 0 && static_cast<size_t>(idx) < beh.size()) ? beh[static_cast<size_t>(idx)] : Behaviour();
+                std::string body = "answer-to:" + std::to_string(idx);
+                // while waiting, notice at once when the client gives the connection up (the peak counts connections open on the client side)
+                auto peerGone = [&] { pollfd p { fd, POLLIN, 0 }; if (::poll(&p, 1, 10) <= 0) return false; char c; return ::recv(fd, &c, 1, MSG_PEEK) == 0; };
+                if (b.kind == 'N') { while (!stop && !peerGone()) { } goto out; }       // never answered: the server sits on this connection
+                if (b.kind == 'D') { auto t0 = std::chrono::steady_clock::now();
+                    while (!stop && std::chrono::steady_clock::now() - t0 < std::chrono::milliseconds(b.ms)) if (peerGone()) goto out;
+                    if (stop) goto out; }
+                std::string resp;
+                if (b.kind == 'K') {
+                    char hx1[16], hx2[16]; size_t half = body.size() / 2;
+                    snprintf(hx1, sizeof hx1, "%zx", half); snprintf(hx2, sizeof hx2, "%zx", body.size() - half);
+                    resp = "HTTP/1.1 200 OK\r\nTransfer-Encoding: chunked\r\n\r\n" + std::string(hx1) + "\r\n" + body.substr(0, half) + "\r\n" + hx2 + "\r\n" + body.substr(half) + "\r\n0\r\n\r\n";
+                } else resp = "HTTP/1.1 200 OK\r\nContent-Length: " + std::to_string(body.size()) + "\r\n\r\n" + body;
+                if (b.kind == 'B') { for (size_t i = 0; i < resp.size(); i += 3) { sendAll(fd, resp.substr(i, 3)); std::this_thread::sleep_for(std::chrono::milliseconds(1)); } }
+                else sendAll(fd, resp);
+                if (b.kind == 'X') goto out;
+            }
+        }
+    out:
+        {
+            std::lock_guard<std::mutex> g(m);
+            fds.erase(std::remove(fds.begin(), fds.end(), fd), fds.end());
+            ::close(fd);
+        }
+    }
+    void finish()
+    {
+        stop = true;
+        if (acceptor.joinable()) acceptor.join();
+        for (auto& t : workers) if (t.joinable()) t.join();
+        if (lfd >= 0) ::close(lfd);
+    }
+};
+
+// cl <threads> <maxconn> <settleMs> <behaviours: I|D<ms>|B|K|X|N, each optionally :t<ms> = client time-out, comma separated>
+std::string opClient(const std::vector<std::string>& w)
+{
+    if (w.size() != 5) return "bad-op";
+    int threads = atoi(w[1].c_str()), maxconn = atoi(w[2].c_str()), settle = atoi(w[3].c_str());
+    std::vector<Behaviour> beh;
+    for (auto& t : split(w[4], ',')) {
+        Behaviour b; b.kind = t[0]; size_t c = t.find(":t");
+        if (t.size() > 1 && isdigit(static_cast<unsigned char>(t[1]))) b.ms = atoi(t.c_str() + 1);
+        if (c != std::string::npos) b.timeoutMs = atoi(t.c_str() + c + 2);
+        beh.push_back(b);
+    }
+    ScriptedServer srv; if (!srv.start(beh)) return "server-failed";
+    Http::Experimental::Client client;
+    client.init(Http::Experimental::Client::options().threads(threads).maxConnectionsPerHost(maxconn));
+    struct Res { std::mutex m; std::vector<std::string> out; std::vector<int> count; } res;
+    res.out.assign(beh.size(), "pending"); res.count.assign(beh.size(), 0);
+    std::vector<Async::Promise<Http::Response>> keep;
+    for (size_t i = 0; i < beh.size(); ++i) {
+        auto rb = client.get("http://127.0.0.1:" + std::to_string(srv.port) + "/r" + std::to_string(i));
+        if (beh[i].timeoutMs > 0) rb.timeout(std::chrono::milliseconds(beh[i].timeoutMs));
+        auto p = rb.send();
+        p.then([&res, i](Http::Response r) { std::lock_guard<std::mutex> g(res.m); res.out[i] = "ok:" + r.body(); ++res.count[i]; },
+               [&res, i](std::exception_ptr e) {
+                   std::string what = "?"; try { std::rethrow_exception(e); } catch (const std::exception& x) { what = x.what(); } catch (...) { }
+                   std::string cls = what == "Timeout" ? "timeout" : (what.find("closed") != std::string::npos ? "closed" : "error");
+                   std::lock_guard<std::mutex> g(res.m); res.out[i] = "rej:" + cls; ++res.count[i]; });
+        keep.push_back(std::move(p));
+    }
+    // wait until everything is settled or the settle time is over
+    auto t0 = std::chrono::steady_clock::now();
+    for (;;) {
+        bool all = true; { std::lock_guard<std::mutex> g(res.m); for (auto& o : res.out) if (o == "pending") all = false; }
+        if (all) break;
+        if (std::chrono::steady_clock::now() - t0 > std::chrono::milliseconds(settle)) break;
+        std::this_thread::sleep_for(std::chrono::milliseconds(5));
+    }
+    std::this_thread::sleep_for(std::chrono::milliseconds(30));
+    client.shutdown();
+    int peak; { std::lock_guard<std::mutex> g(srv.m); peak = srv.peak; }
+    srv.finish();
+    std::string out = "results=";
+    std::lock_guard<std::mutex> g(res.m);
+    for (size_t i = 0; i < res.out.size(); ++i) { if (i) out += ","; out += res.out[i] + (res.count[i] > 1 ? "x" + std::to_string(res.count[i]) : ""); }
+    return out + " peak=" + std::to_string(peak);
+}
+
 } // namespace
+
+// The experimental client keeps reference cycles between its connections, timers and transports that are never broken
+// (not part of any property here): do not let LeakSanitizer turn them into a failure of the driver at exit.
+extern "C" const char* __lsan_default_suppressions() { return "leak:Pistache::Http::Experimental\nleak:Pistache::TimerPool\n"; }
 
 int main()
 {
@@ -856,6 +989,7 @@ int main()
     ops["life"] = opLife;
     ops["wr"] = opWr;
     ops["stall"] = opStall;
+    ops["cl"] = opClient;
     ops["to"] = opTimeout;
     ops["rtresp"] = opRtResp;
     int rc = runLoop(ops, 30);
